@@ -152,3 +152,61 @@ contract("_HoldingScopeFinder.find_scope_end", source=S + "_HoldingScopeFinder.f
              "forall(lambda k: implies(0 <= k and k < i and not empty_line(self, elem_at(k)), elem_at(k) <= end))",
              "forall(lambda k: implies(i <= k and k < len(" + SQ + "), end < " + SQ + "[k] or " + SQ + "[k] <= end0(scope)))", "end >= end0(scope)"]}},
          note="scope extents by indentation; the one-liner rule is `>=` (a header continued over several lines with the body on its last line is a one-liner too)")
+
+# ---- CPython cross-check on REAL scope trees: the contracts above evaluated natively (also judges bodies that leave the verified subset) ----------------
+_XC_SRCS = [
+    "def f(a):\n    def g(b):\n        return [c for c in b]\n    return g(a)\n\n\nclass K:\n    def m(self):\n        return lambda q: q\n",
+    "def f(xs, ys):\n    return [g + 1 for g in xs] if any([h > 0 for h in ys]) else []\n",
+    "x = [i for i in range(3)]\n\n\ndef top():\n    y = {k: v for k, v in {}.items()}\n    class In:\n        z = (w for w in [])\n    return y\n",
+    "class A:\n    class B:\n        def c(self):\n            def d():\n                pass\n            return d\n    def e(self): return 1\n",
+    "def one(): return 1\ndef two():\n    a = 1\n\n    b = 2\n    return a + b\n\n# trailing comment\nvalue = two()\n",
+]
+_XC_MODS = {}
+
+
+def _xc_scopes(i):
+    if i not in _XC_MODS:
+        from rope.base.project import NoProject
+        from rope.base import libutils
+        pm = libutils.get_string_module(NoProject(), _XC_SRCS[i])
+        _XC_MODS[i] = (pm, pm.get_scope())
+    return _XC_MODS[i]
+
+
+def _xc_all(scope):
+    out = [scope]
+    for c in scope.get_scopes():
+        out += _xc_all(c)
+    return out
+
+
+def _xc_hso_domain(tier, seed):
+    for i, src in enumerate(_XC_SRCS):
+        n_scopes = 12
+        for off in range(0, len(src) + 1):
+            yield (i, -1, off)           # from the module scope
+        for off in range(0, len(src) + 1, 3):
+            for j in range(1, n_scopes):
+                yield (i, j, off)        # from the j-th scope of the tree (if there is one)
+
+
+def _xc_hso_build(case):
+    i, j, off = case
+    pm, root = _xc_scopes(i)
+    scopes = _xc_all(root)
+    start = root if j < 0 else (scopes[j] if j < len(scopes) else None)
+    if start is None:
+        start = root
+    return {"scope": start, "offset": off, "__dom_Scope__": scopes}
+
+
+def _xc_desc(x, r):
+    return x is r or any(_xc_desc(x, c) for c in r.get_scopes())
+
+
+_XC_SCOPE_ENV = {"children": lambda s: s.get_scopes(), "inreg": lambda s, o: s.in_region(o), "desc": _xc_desc,
+                 "region_of": lambda s: s.get_region(), "height": lambda s: 1 + max([0] + [_XC_SCOPE_ENV["height"](c) for c in s.get_scopes()])}
+bounded_check(name="c15-holding-offset-native", props=["C15", "C20"], contract="_HoldingScopeFinder.get_holding_scope_for_offset", build=_xc_hso_build,
+              domain=_xc_hso_domain, exhaustive=True, env=_XC_SCOPE_ENV,
+              label="CPython cross-check: get_holding_scope_for_offset's contract on the real scope trees of 5 small modules (nested functions, classes, lambdas, "
+                    "comprehensions, a conditional expression with comprehensions in body and test), every offset from the module scope and every 3rd from every scope")
